@@ -122,7 +122,7 @@ def run_harness(binary, ops_path, trace_path, post="export,common,json", timeout
 
 
 FIND_RE = re.compile(r'^"FINDING~~(\d+)~~(.*)"$')
-COV_RE = re.compile(r'^"COV~~(\d+)~~(T|F)~~(T|F)~~(.*)~~(\d+)"$')
+COV_RE = re.compile(r'^"COV~~(\d+)~~(T|F)~~(T|F)~~([^~]*)~~(\d+)(?:~~(.*))?"$')
 STAT_RE = re.compile(r'^(\d+) states generated, (\d+) distinct states found')
 STR_RE = re.compile(r'"((?:[^"\\]|\\.)*)"')
 
@@ -150,7 +150,8 @@ def tlc_trace(trace_path, workdir, cfg="Trace.cfg", module="Trace.tla", timeout=
         m = COV_RE.match(line)
         if m:
             cov.append({"line": int(m.group(1)), "matched": m.group(2) == "T", "conf": m.group(3) == "T",
-                        "dev": [d for d in m.group(4).split(",") if d], "nout": int(m.group(5))})
+                        "dev": [d for d in m.group(4).split(",") if d], "nout": int(m.group(5)),
+                        "shape": m.group(6) or ""})
             continue
         m = STAT_RE.match(line)
         if m:
